@@ -644,7 +644,7 @@ Section Proofs.
       + unfold Block.wtx_hash. destruct (w_hash t) as [ph|] eqn:Hwh; simpl.
         * assert (tgood m t) as Hgt by (split; [exact Hm| rewrite Hwh; exact Hh]).
           destruct (IH next t Hgt) as [hid [Hid Hrun]].
-          exists hid. split; [assumption|]. rewrite Hrun, (Hid ph Hwh), Hh. reflexivity.
+          exists hid. split; [intros ph0 E; inversion E; subst ph0; apply Hid; assumption|]. rewrite Hrun, (Hid ph Hwh), Hh. reflexivity.
         * set (t' := mk_wtx txc H (w_ptr t) (w_msg t) (Some (next, tx_hash _ _ _ W (mt_val (w_msg t)))) (w_index t)).
           destruct (IH (next + 1) t') as [hid [Hid Hrun]].
           { split; [exact Hm|]. simpl. rewrite Hm. reflexivity. }
